@@ -12,8 +12,11 @@ import time
 import traceback
 
 VERIF = os.path.dirname(os.path.dirname(os.path.abspath(__file__)))
-EVIDENCE_DIR = os.path.join(VERIF, "evidence")
-REPLAY_DIR = os.path.join(VERIF, "replays")
+# VERIF_OUT_DIR redirects evidence/replays (used only when a check is pointed at a scratch copy of the library through
+# PYTHONPATH while testing seeded changes); the registered commands never set it.
+_OUT = os.environ.get("VERIF_OUT_DIR") or VERIF
+EVIDENCE_DIR = os.path.join(_OUT, "evidence")
+REPLAY_DIR = os.path.join(_OUT, "replays")
 KNOWN = os.path.join(VERIF, "known_findings.json")
 NCPU = int(os.environ.get("VERIF_JOBS", "16"))
 
@@ -262,6 +265,11 @@ class Report:
             "new_violations": len(new),
         }
         cov.update(self.extra)
+        try:
+            import transactron
+            cov["library_under_test"] = os.path.dirname(os.path.abspath(transactron.__file__))
+        except Exception:
+            pass
         ev = {"property_id": self.prop, "tier": self.tier, "seed": self.seed, "level": level, "coverage": cov,
               "assumptions": self.assumptions, "wall_s": round(wall, 2), "violations": len(new)}
         os.makedirs(EVIDENCE_DIR, exist_ok=True)
